@@ -65,7 +65,11 @@ public:
     void Run(u64 cycles) {
         idle = false;
         for (u64 i = 0; i < cycles; ++i) {
-            if (idle) {
+            // Do not fast-forward while an interrupt request is latched but not yet sampled: it was raised
+            // by the tick of the previous cycle and has to be seen at this instruction boundary.
+            const bool interrupt_latched = interrupt_pending[0] || interrupt_pending[1] ||
+                                           interrupt_pending[2] || vinterrupt_pending;
+            if (idle && !interrupt_latched) {
                 u64 skipped = core_timing.Skip(cycles - i - 1);
                 i += skipped;
 
